@@ -213,6 +213,8 @@ class Gen:
             j['dflt'] = r.choice([{'k': 'lit', 'v': jv('dflt')}, {'k': 'lit', 'v': None},
                                   {'k': 't', 'steps': []}, {'k': 'val', 'v': {'sent': 'SKIP'}},
                                   {'k': 'list', 'xs': [{'k': 'lit', 'v': jv(1)}, {'k': 't', 'steps': []}]},
+                                  {'k': 'list', 'xs': []}, {'k': 'dict', 'es': []},
+                                  {'k': 'dict', 'es': [[{'k': 'str', 's': 'items'}, {'k': 'list', 'xs': []}]]},
                                   {'k': 'str', 's': 'literal.string'}])
         elif p < 0.4:
             self.nfn += 1
@@ -483,21 +485,34 @@ class Gen:
             p = r.random()
             if d <= 0 or p < 0.3:
                 return leaf()
+            if p < 0.42:
+                # an empty mutable container (top-level or nested): rebuilt like any other
+                return r.choice([{'k': 'list', 'xs': []}, {'k': 'dict', 'es': []}, {'k': 'set', 'xs': []}])
             if p < 0.6:
                 return {'k': 'list', 'xs': [cont(d - 1) for _ in range(r.randint(1, 3))]}
             if p < 0.8:
                 return {'k': 'tuple', 'xs': [cont(d - 1) for _ in range(r.randint(1, 3))]}
             return {'k': 'dict', 'es': [[{'k': 'str', 's': k}, cont(d - 1)] for k in r.sample(['u', 'w', 'z'], r.randint(1, 2))]}
         c = cont(2)
-        if c['k'] not in ('list', 'tuple', 'dict'):
+        if c['k'] not in ('list', 'tuple', 'dict', 'set'):
             c = {'k': 'list', 'xs': [c, leaf()]}
         p = r.random()
-        if p < 0.35:
+        if p < 0.3:
             per_item = {'k': 'coalesce', 'subs': [{'k': 'str', 's': r.choice(['name', 'zz'])}], 'dflt': c,
                         'dflt_factory': None, 'skip': None, 'skip_exc': ['GlomError']}
+        elif p < 0.4:
+            # the other defaults evaluated through arg_val: Match, Switch, Or / And
+            q = r.random()
+            if q < 0.35:
+                per_item = {'k': 'match', 's': {'k': 'ty', 'name': r.choice(['str', 'dict'])}, 'dflt': c}
+            elif q < 0.7:
+                per_item = {'k': 'switch', 'cases': [[{'k': 'str', 's': r.choice(['name', 'zz'])}, {'k': 't', 'steps': []}]],
+                            'dflt': c}
+            else:
+                per_item = {'k': r.choice(['or', 'and']), 'cs': [{'k': 'str', 's': r.choice(['name', 'zz'])}], 'dflt': c}
         elif p < 0.6:
             f = self.fn('pack')
-            per_item = {'k': 'call', 'func': f, 'args': c if c['k'] != 'dict' else {'k': 'tuple', 'xs': [c]},
+            per_item = {'k': 'call', 'func': f, 'args': c if c['k'] in ('list', 'tuple') else {'k': 'tuple', 'xs': [c]},
                         'kwargs': {'k': 'dict', 'es': [[{'k': 'str', 's': 'u'}, cont(1)]]}}
         elif p < 0.8:
             per_item = {'k': 'tuple', 'xs': [{'k': 'sBind', 'bs': [['k1', c]]},
